@@ -1,8 +1,9 @@
 CONFIG = dict(
         level='proof',
         streams=[dict(harness='c15', driver='c15', shrink_field='ops')],
-        rule='operation sequences on one toposort.Graph (AddNode/AddEdge/RemoveEdge/ReindexNode, then Toposort on a copy x5 and on 3 graphs '
-             'rebuilt from the same operation sequence, FindCycle, FindChildren, FindParents): all digraphs on <=3 nodes with self loops and on '
+        rule='operation sequences on toposort.Graph values (AddNode/AddEdge/RemoveEdge/ReindexNode, then Toposort on a copy x5 and on 3 graphs '
+             'rebuilt from the same operation sequence, FindCycle, FindChildren, FindParents; since round 3 also Copy as an operation and the '
+             'destructive Toposort on the graph itself, see SEVERAL GRAPHS below): all digraphs on <=3 nodes with self loops and on '
              '4 nodes (quick: without self loops) in two insertion orders, random graphs up to 30 nodes with removal+reindex rounds, a '
              'DAG-biased stream and a malformed stream (duplicates, unknown endpoints, missing reindex). '
              'NAME SPACE: nodes are integers in the trace; the strings given to the Go code come from a per-case name table written into the '
@@ -22,8 +23,33 @@ CONFIG = dict(
              'than 2500 primitive operations are judged by an independent linear-time oracle in the driver (order validity, acyclicity by Kahn '
              'counting, cycle validity, existence of a cycle through the seed by reachability) instead of the quadratic model; on all smaller cases '
              'that oracle is cross-checked against the extracted ones. Sorts of cases above 15000 operations are repeated on 3 copies + 1 rebuilt '
-             'graph instead of 5 + 3. Non-trivial = at least 2 nodes and 1 edge; distinct = distinct name table + operation list.',
-        exhaustive_note='digraphs on <=3 nodes (with self loops) x 2 insertion orders enumerated completely, once under fixed-width names and (2 and 3 nodes) once more under drawn name tables; 4 nodes without self loops (quick) / with (thorough)',
+             'graph instead of 5 + 3. '
+             'SEVERAL GRAPHS, COPY THEN MUTATE, RE-USE (kinds copyex0..copyex3, copyex3chain, copyrnd, reuse, scale_copy_*): a case has four graph '
+             'slots 0..3, all NewGraph(); `(at g <op>)` applies any operation (bulk ones too) to slot g, a bare operation is on slot 0 (so every older case '
+             'reads as before); `(copy s d)` is slots[d] = slots[s].Copy() (any s, d, also s = d and overwriting a live slot); `(sortd)` is Toposort '
+             'on the graph ITSELF, which consumes the edges it walks, followed by further operations on the consumed graph. The model is a value: a '
+             'copy is the same model state once more, the post-state of sortd is fst (Model.toposort st); every slot is compared with its OWN model '
+             'state and its own mirror after every operation; the determinism repetition of `sort` rebuilds a slot from its own history (a copy inherits '
+             'the history of its source, destructive sorts are replayed). A slot whose state cannot be known (Toposort panicked / model SortPanic, '
+             'SortUnspec / destructive sort outside the domain that could not be compared / wrong answer) is marked lost and its operations are only '
+             'counted (ops_on_lost_graph) until a copy overwrites it. '
+             'copyex: every digraph on 0, 1, 2 nodes with self loops and on 3 nodes (quick: without self loops = 64, thorough: with = 512) built in '
+             'slot 0, copied to slot 1, then one case per (graph, side in {original, copy}, single mutation, variant): the mutation - each absent edge '
+             'incl. self loops, each present edge removed + ReindexNode, a new node alone and with an edge from each old node, sortd - on that side, the '
+             'full query set (sort, FindCycle / FindChildren / FindParents of every node incl. the new one) on BOTH slots (untouched side first in half '
+             'of the cases), then sortd on one side and the full query set on the other (variants: other side consumed / mutated side consumed / both '
+             'sides mutated, the second mutation drawn); two thirds of variants 2 and 3 under a drawn name table. copyex3chain: 0 -> 1, mutate 1, 1 -> 2, '
+             'mutate 0 and 2 (sometimes 1 again), query all three, consume them one by one with the survivors queried (4 draws per graph, thorough 40). '
+             'copyrnd (2000, thorough 60000; a sixth as kind reuse on ONE graph): 4-13 steps over 2-3 slots on up to 8 nodes, three quarters under drawn '
+             'name tables: copy (any source incl. a still empty slot, any target), sortd, AddNode, AddEdge with the source drawn two times out of three '
+             'from the nodes that were SINKS when the graph was last copied, RemoveEdge (+AddEdge) + ReindexNode, a malformed minority (unknown '
+             'endpoints, duplicate edges, absent removals, missing re-index); after EVERY step sort + children / parents / cycle of a drawn node on '
+             'EVERY live slot; half of the cases end by consuming all graphs one after the other. scale_copy_{star,path,roots}: 600 (through the '
+             'model), 10^3, 10^4 (thorough 10^5) nodes - a hub with n-1 sinks / a path / n isolated nodes, copy, bulk edges from the former sinks on '
+             'ONE side (either), sort + cycle + neighbour queries on both, one side closed to a cycle, one side consumed, the other sorted, the consumed '
+             'graph re-used. '
+             'Non-trivial = at least 2 nodes and 1 edge; distinct = distinct name table + operation list.',
+        exhaustive_note='digraphs on <=3 nodes (with self loops) x 2 insertion orders enumerated completely, once under fixed-width names and (2 and 3 nodes) once more under drawn name tables; 4 nodes without self loops (quick) / with (thorough); copy-then-mutate: every digraph on <=2 nodes (with self loops) and 3 nodes (quick without, thorough with self loops) x side x every single mutation',
         assumptions=['node names are arbitrary distinct non-empty byte strings; the model works on integers whose order stands for the plain byte order of the '
                      'names (sort.Strings is modelled as a sort of integers, the driver maps every name to its rank in byte order before the model runs)',
                      'the empty string is not used as a node name (it is FindCycle\'s sentinel; hypothesis is_node s nobody = false of the FindCycle '
@@ -32,7 +58,10 @@ CONFIG = dict(
                      'and only order-independent facts are compared (validity of the returned cycle, emptiness, parent set)',
                      'independence of Toposort from Go map iteration order is not proved about the Go code (the model has no map order); it is what '
                      'the correspondence check tests: every Sort is run on 5 copies and on 3 graphs rebuilt from the same operations and all must '
-                     'give the model\'s single answer'],
+                     'give the model\'s single answer',
+                     'Graph.Copy is modelled as duplication of the model value (the model state is immutable); a graph consumed by Toposort - successfully or '
+                     'not - is treated as a graph of the domain again (its state equals the one reached by removing the edges of every emitted node and '
+                     're-indexing: all counters consistent, wfb holds; checked on every such state of every run)'],
         trusted_base=['hand-written Gallina model coq/theories/Toposort/Model.v of internal/toposort/toposort.go, tied to the code by the replay '
                       'of every harness case (zero mismatches on all generated cases incl. exhaustive small scopes and malformed sequences)',
                       'for the scale cases beyond 2500 primitive operations: the independent OCaml oracle in ocaml/c15/driver.ml (mirror of the node '
@@ -45,11 +74,12 @@ CONFIG = dict(
                    'permutation of the nodes with every edge forward (refinement to an abstract Kahn algorithm, fuel bound proved); FindCycle, for '
                    'every map iteration order, returns a real cycle through the seed and returns one whenever one exists; removal followed by '
                    'ReindexNode restores the domain (two-level invariant). All 19 theorems closed under the global context (no axioms).',
-        level_note='Trusted: the correspondence between Model.v and toposort.go (tested, not proved: about 19 500 cases per quick run, all digraphs on <=3 '
+        level_note='Trusted: the correspondence between Model.v and toposort.go (tested, not proved: about 28 000 cases per quick run, all digraphs on <=3 '
                    'nodes / 4 nodes, random graphs to 30 nodes, malformed sequences, adversarial name tables, graphs up to 1250 nodes through the model and '
                    'up to 65 537 (thorough 10^6) nodes through the independent oracle; fine comparison of every return value and of the exact order), '
+                   'several live graphs with Copy and the destructive Toposort as operations (about 8000 cases per quick run), '
                    'Coq kernel, extraction, OCaml driver, Go harness. Modelled rather than verified: Go strings as integers (the rank of the name in byte order), '
-                   'Go maps as association lists, map iteration as an explicit order argument (theorems quantify over it for FindCycle; Toposort, '
+                   'Go maps as association lists, Copy as duplication of the model value, map iteration as an explicit order argument (theorems quantify over it for FindCycle; Toposort, '
                    'AddEdge, ReindexNode are order-independent by construction in the model and their independence in Go is covered by repeated '
                    'runs only). BreadthSort, Serialize and DebugDump are not modelled (not part of the property).',
         technique='machine-checked proof in Coq 8.16 (refinement of the state-machine model to an abstract Kahn model; BFS invariants; invariant '
